@@ -198,7 +198,23 @@ def run(facts, rep, tier):
                     rep.oblige(False, ("overwrites", key, f))
                     rep.add(Finding("R09.4", "%s not updated by TC19 (%s path)" % (f, "U" if rr.ctx.get("U") else "D"),
                                     "context '%s': the row's %s is left as it was" % (rr.ctx["label"], f), None))
-    rep.instances("R09.4", n4, floor=10, what="context pairs (-U on/off)")
+    # ... and -R: a velocity squitter is decoded alike with and without the relaxed Comm-B option (the TR family repeats the
+    # DF17/18 type-code contexts under -U -R)
+    byl = {r.ctx["label"]: r for r in sel(results, "T")}
+    for rr in sel(results, "TR", "tc19"):
+        twin = byl.get(rr.ctx["label"].replace("TR ", "T ", 1).replace(" R1", ""))
+        if twin is None or rr.post_update is None or twin.post_update is None:
+            continue
+        n4 += 1
+        for f in ("vrate", "grspeed", "track"):
+            a, b_ = summary(rr.post_update.fields.get(f)), summary(twin.post_update.fields.get(f))
+            ok = a == b_
+            rep.oblige(ok, ("relaxed", rr.ctx["label"], f))
+            if not ok:
+                rep.add(Finding("R09.4", "%s differs with -R (TC19)" % f,
+                                "context '%s': with -R the row's %s becomes %r, without it %r - the velocity squitter is not decoded "
+                                "alike under every option set" % (rr.ctx["label"], f, rr.post_update.fields.get(f), twin.post_update.fields.get(f)), None))
+    rep.instances("R09.4", n4, floor=10, what="context pairs (-U on/off, -R on/off)")
     rep.extra["contexts"] = len(V)
     rep.assumptions += ["float rounding of sqrt/atan2 and the exact [0,360) bound of the track are not decided",
                         "'within 4 kt' for the supersonic subtype is implied by x4 of the floor value"]
